@@ -48,7 +48,13 @@ func (f Fault) String() string {
 var ByteSetValues = []byte{0x00, 0x01, 0x7f, 0x80, 0xff, 0x1f, 0x8b, 0x30, 0x5c, 0x78}
 
 // WordSetValues are the 32-bit values a word_set fault writes (count inflation).
-var WordSetValues = []uint32{0, 1, 1 << 28, 1<<28 + 1, 1 << 31, 1<<32 - 1}
+// WordSetValues are the 32-bit values a word_set fault writes (count
+// inflation): the boundary counts the property names, plus the counts at
+// which count*size first wraps in 32 (and 31) bits for the element sizes that
+// occur in the formats (ceil(2^32/size): 3, 5, 8, 9, 12, 20, 21, 24 bytes).
+var WordSetValues = []uint32{0, 1, 1 << 28, 1<<28 + 1, 1 << 31, 1<<32 - 1,
+	1431655766, 858993460, 1 << 29, 477218589, 357913942, 214748365, 204522253, 178956971,
+	1<<27 + 1, 102261127}
 
 // Apply returns the damaged copy of b (dst is reused when large enough).
 func (f Fault) Apply(dst, b []byte) []byte {
